@@ -2,6 +2,6 @@ SPECIFICATION GSpec
 CONSTANTS
   GKeys = {1, 2, 3}
   MaxOps = 3
-  NTrees = 11
+  NTrees = 13
 INVARIANT Emit
 CHECK_DEADLOCK FALSE
